@@ -475,6 +475,18 @@ def generate(repo, exclude=None):
             ths, proofs = rs2lean_rc.theorems(u, done)
             theorems += ths
             CUSTOM_PROOFS.update(proofs)
+        # the wrapper types Hc128Rng / IsaacRng / Isaac64Rng (newtypes of BlockRng / BlockRng64 of the translated cores)
+        avail = set()
+        for part in parts:
+            for ns, body in re.findall(r"^namespace Ext\.(\w+)\n(.*?)^end Ext\.", part, re.S | re.M):
+                avail |= {f"Rngs.Ext.{ns}.{m}" for m in re.findall(r"^def (\w+)", body, re.M)}
+        for u, order in rs2lean_rc.build_wrapper_units(repo, report, avail):
+            text, done, skipped = emit_unit(u, order, dict(exclude.get(u.name, {})))
+            parts.append(text)
+            report[u.name] = dict(file=u.file, translated=done, skipped=skipped, shape=u.shape, seed_len=u.seed_len)
+            ths, proofs = rs2lean_rc.wrapper_theorems(u, done)
+            theorems += ths
+            CUSTOM_PROOFS.update(proofs)
     except Exception as e:
         report["rand_core"] = dict(report.get("rand_core") or {}, error=repr(e))
     digest = hashlib.sha256("\n".join(parts).encode()).hexdigest()[:16]
